@@ -5,7 +5,12 @@ the fields of Monero's `transaction_prefix` and `rctSigBase` using only the tags
 anything generated from /repo; it does not look at the prunable part at all (everything after `q`).
 
 `p` = end of the prefix, `q` = end of the RingCT base. Base length, closed form:
-`1 (type) + |fee varint| + (Simple ? 32·inputs : 0) + outputs·(type ≤ 3 ? 64 : 8) + 32·outputs`; a Null base is the type byte alone. -/
+`1 (type) + |fee varint| + (Simple ? 32·inputs : 0) + outputs·(type ≤ 3 ? 64 : 8) + 32·outputs`; a Null base is the type byte alone.
+Where the format fixes the END of the whole transaction without reading the prunable part, the skipper reports it (`end?`):
+version 1 — `p + 64 · (number of ring members of all key inputs)` (one `(c, r)` signature per ring member); any other version without
+inputs — `p`; RingCT type Null — `q`.
+
+Props/C05 `C05_bounds_are_skipper` proves that these are the boundaries of every accepted parse (all versions, any remainder). -/
 namespace Spec
 abbrev Bs := List UInt8
 
@@ -23,12 +28,17 @@ def skipN : Nat → Bs → Option Bs
 def skipRep (f : Bs → Option Bs) : Nat → Bs → Option Bs
   | 0, b => some b
   | n + 1, b => match f b with | none => none | some r => skipRep f n r
+/-- apply a counting skipper `n` times, adding the counts to `acc` -/
+def skipRepSum (f : Bs → Option (Nat × Bs)) : Nat → Nat → Bs → Option (Nat × Bs)
+  | 0, acc, b => some (acc, b)
+  | n + 1, acc, b => match f b with | none => none | some (k, r) => skipRepSum f n (acc + k) r
 def skipVarint (b : Bs) : Option Bs := (rdVarint b).map (·.2)
-/-- `txin_gen` = 0xff height | `txin_to_key` = 0x02 amount, count, offsets, 32-byte key image -/
-def skipIn : Bs → Option Bs
+/-- `txin_gen` = 0xff height | `txin_to_key` = 0x02 amount, count, offsets, 32-byte key image.
+Returns the number of ring members (key offsets; 0 for `txin_gen`) and the rest -/
+def skipIn : Bs → Option (Nat × Bs)
   | [] => none
   | t :: r =>
-    if t = 0xff then skipVarint r
+    if t = 0xff then (skipVarint r).map fun r' => (0, r')
     else if t = 0x02 then
       match rdVarint r with
       | none => none
@@ -36,7 +46,7 @@ def skipIn : Bs → Option Bs
         | none => none
         | some (n, r2) => match skipRep skipVarint n r2 with
           | none => none
-          | some r3 => skipN 32 r3
+          | some r3 => (skipN 32 r3).map fun r' => (n, r')
     else none
 /-- amount, then `txout_to_key` = 0x02 key | `txout_to_tagged_key` = 0x03 key, view tag -/
 def skipOut (b : Bs) : Option Bs :=
@@ -46,24 +56,23 @@ def skipOut (b : Bs) : Option Bs :=
     | [] => none
     | t :: r1 => if t = 0x02 then skipN 32 r1 else if t = 0x03 then skipN 33 r1 else none
 
-structure TxBounds where
-  (version inputs outputs p q : Nat)
-  /-- the RingCT type byte is present and is 0 -/
-  (isNull : Bool)
-  /-- there is RingCT data (version ≠ 1 and at least one input) -/
-  (hasRct : Bool)
+/-- what walking a `transaction_prefix` finds: version, number of inputs, ring members of all key inputs together, number of
+outputs, and the bytes after the prefix -/
+structure PrefixEnd where
+  (version inputs ringMembers outputs : Nat)
+  (rest : Bs)
 
-/-- boundaries of the hashed parts of the transaction that starts at the beginning of `b` -/
-def txBounds (b : Bs) : Option TxBounds :=
+/-- `transaction_prefix`: version, unlock time, inputs, outputs, extra -/
+def skipPrefix (b : Bs) : Option PrefixEnd :=
   match rdVarint b with
   | none => none
   | some (v, r1) => match rdVarint r1 with
     | none => none
     | some (_, r2) => match rdVarint r2 with
       | none => none
-      | some (nin, r3) => match skipRep skipIn nin r3 with
+      | some (nin, r3) => match skipRepSum skipIn nin 0 r3 with
         | none => none
-        | some r4 => match rdVarint r4 with
+        | some (rings, r4) => match rdVarint r4 with
           | none => none
           | some (nout, r5) => match skipRep skipOut nout r5 with
             | none => none
@@ -71,18 +80,42 @@ def txBounds (b : Bs) : Option TxBounds :=
               | none => none
               | some (ne, r7) => match skipN ne r7 with
                 | none => none
-                | some r8 =>
-                  let p := b.length - r8.length
-                  if v = 1 ∨ nin = 0 then some ⟨v, nin, nout, p, p, false, false⟩
-                  else match r8 with
-                    | [] => none
-                    | ty :: r9 =>
-                      if ty = 0 then some ⟨v, nin, nout, p, p + 1, true, true⟩
-                      else match rdVarint r9 with
-                        | none => none
-                        | some (_, r10) =>
-                          let feeLen := r9.length - r10.length
-                          let t := ty.toNat
-                          let q := p + 1 + feeLen + (if t = 2 then 32 * nin else 0) + nout * (if t ≤ 3 then 64 else 8) + 32 * nout
-                          if q ≤ b.length then some ⟨v, nin, nout, p, q, false, true⟩ else none
+                | some r8 => some ⟨v, nin, rings, nout, r8⟩
+
+/-- `rctSigBase` of a transaction with `nin` inputs and `nout` outputs at the head of the bytes: its length and whether its type is Null
+(fails when fewer bytes than that are left) -/
+def skipBase (nin nout : Nat) : Bs → Option (Nat × Bool)
+  | [] => none
+  | ty :: r9 =>
+    if ty = 0 then some (1, true)
+    else match rdVarint r9 with
+      | none => none
+      | some (_, r10) =>
+        let feeLen := r9.length - r10.length
+        let t := ty.toNat
+        let len := 1 + feeLen + (if t = 2 then 32 * nin else 0) + nout * (if t ≤ 3 then 64 else 8) + 32 * nout
+        if len ≤ 1 + r9.length then some (len, false) else none
+
+structure TxBounds where
+  (version inputs outputs p q : Nat)
+  /-- the RingCT type byte is present and is 0 -/
+  (isNull : Bool)
+  /-- there is RingCT data (version ≠ 1 and at least one input) -/
+  (hasRct : Bool)
+  /-- the end of the whole transaction, where the format fixes it without the prunable part: version 1, no inputs, type Null -/
+  (end? : Option Nat)
+
+/-- boundaries of the hashed parts of the transaction that starts at the beginning of `b` -/
+def txBounds (b : Bs) : Option TxBounds :=
+  match skipPrefix b with
+  | none => none
+  | some pe =>
+    let p := b.length - pe.rest.length
+    if pe.version = 1 then
+      let e := p + 64 * pe.ringMembers
+      if e ≤ b.length then some ⟨pe.version, pe.inputs, pe.outputs, p, p, false, false, some e⟩ else none
+    else if pe.inputs = 0 then some ⟨pe.version, pe.inputs, pe.outputs, p, p, false, false, some p⟩
+    else match skipBase pe.inputs pe.outputs pe.rest with
+      | none => none
+      | some (len, isNull) => some ⟨pe.version, pe.inputs, pe.outputs, p, p + len, isNull, true, if isNull then some (p + len) else none⟩
 end Spec
